@@ -280,6 +280,35 @@ def fixed_grid(ctx):
         case = {'regs': [{'ast': R._fix(a), 'choice': [2], 'method': 'GET'} for a in rs], 'spell': 0, 'paths': paths}
         ctx.guarded(check_case, case)
     ctx.count('fixed_grid_rule_sets', len(rule_sets))
+    # the same (pattern, method) registered again with overwrite=True under other / anonymous wildcard names; registered and removed again
+    ow_sets = [
+        ([[L('/item/'), W('id', 'int')], [L('/item/'), W('num', 'int')]], ['GET', 'GET']),
+        ([[L('/item/'), W('id', 'int')], [L('/item/'), W(None, 'int')]], ['GET', 'GET']),
+        ([[L('/item/'), W(None, 'int')], [L('/item/'), W('id', 'int')]], ['GET', 'GET']),
+        ([[L('/u/'), W('a'), L('/'), W('b')], [L('/u/'), W('b'), L('/'), W('a')]], ['POST', 'POST']),
+        ([[L('/u/'), W('a'), L('/'), W('b')], [L('/u/'), W('x'), L('/'), W('y')], [L('/u/'), W('p'), L('/'), W('q')]], ['GET', 'POST', 'GET']),
+        ([[L('/f/'), W('v', 'float'), L('x')], [L('/f/'), W('w', 'float'), L('x')], [L('/f/'), W('v', 'float'), L('x')]], ['GET', 'GET', 'GET']),
+    ]
+    ow_paths = ['/item/7', '/item/-3', '/item/x', '/u/1/2', '/u/a/b', '/u/a', '/f/1.5x', '/f/2x', '/item/7/', '/u/a/b/']
+    for rs, ms in ow_sets:
+        for flags in ([False] + [True] * (len(rs) - 1), [True] * len(rs)):
+            for rm in (None, 0, len(rs) - 1):
+                for spell in (0, 1):
+                    regs = [{'ast': R._fix(a), 'choice': [2], 'method': m, 'overwrite': f, 'remove_after': rm == i} for i, (a, m, f) in enumerate(zip(rs, ms, flags))]
+                    ctx.guarded(check_case, {'regs': regs, 'spell': spell, 'paths': ow_paths})
+    ctx.count('fixed_grid_overwrite_sets', len(ow_sets))
+    # registered and removed again, exhaustively: every 3-subset of nine rules that share prefixes, each member removed in turn
+    import itertools
+    uni = [[L('/a')], [L('/a/b')], [L('/ab')], [L('/a/'), W('x')], [L('/a/'), W('x'), L('/c')], [L('/a/'), W('p', 'path'), L('/'), W('t'), L('a')], [L('/abc/d')],
+           [L('/a/b/'), W('n', 'int')], [L('/'), W('p', 'path'), L('/'), W('a'), L('a')]]
+    rm_paths = ['/a', '/a/b', '/ab', '/a/x', '/a/x/c', '/a/b/7', '/abc/d', '/a/a/b/tom/', '/a/a/b/toma', '/a/b/c', '/abc', '/a/', '/a/b/ca', '/x/y/za']
+    nsets = 0
+    for combo in itertools.combinations(range(len(uni)), 3):
+        for rm in combo:
+            regs = [{'ast': R._fix(uni[i]), 'choice': [2], 'method': 'GET', 'overwrite': False, 'remove_after': i == rm} for i in combo]
+            ctx.guarded(check_case, {'regs': regs, 'spell': 0, 'paths': rm_paths})
+            nsets += 1
+    ctx.count('fixed_grid_remove_sets', nsets)
 
 
 def run(ctx):
